@@ -87,8 +87,10 @@ int BackendApp::Run(char **argv) {
     // For mp::Error, which can be thrown by Abort() or MP_RAISE,
     // we try to print the result into .sol file,
     // if the solution handler is available.
+    // Errors not raised with a solve result code carry the process
+    // exit status EXIT_FAILURE, which is not a solve result
     GetBackend().ReportError(
-          er.exit_code()>=0 ? er.exit_code() : sol::FAILURE,
+          er.exit_code()>EXIT_FAILURE ? er.exit_code() : sol::FAILURE,
           std::string(GetBackend().long_name()) + ":  "
           + er.what());
   } catch (const std::exception& ex) {
